@@ -25,6 +25,7 @@ META = {
         "C10.P4 send_message reports True only if every block's wait() was truthy",
         "C10.P5 BlockSendInfo maps resolve(True/False) to wait() True/False",
         "C10.P6 no connection socket is configured for an abortive close (SO_LINGER on, timeout 0), which would discard bytes already reported as sent",
+        "C10.W3 the thread that drains the send queue is stopped on every path of the link-loss handler: the next link starts the only writer (shared with C09.P1)",
     ],
     "does_not_decide": ["kernel socket-buffer behaviour, the peer's pacing (the rule is on the use of the count, the only thing the code controls)"],
     "assumptions": ["socket.send returns the number of bytes accepted (stdlib contract)", "a socket made non-blocking with setblocking(0) stays non-blocking"],
@@ -210,23 +211,46 @@ def _exit_is_exact(fn, loop, test, tainted, S):
             bufs = {d for d in tainted}
             rec, exact = rules.cond_is_emptiness_continue(a.value, bufs)
             if not rec:
-                rec, exact = _offset_test(a.value, tainted)
+                rec, exact = _offset_test(a.value, tainted, loop, a)
             if not rec:
                 raise AnalysisError(f"send loop flag assignment `{norm(a)}` is not a recognised remaining-bytes test")
             verdicts.append(exact)
         return all(verdicts)
     rec, exact = rules.cond_is_emptiness_continue(test, set(tainted))
     if not rec:
-        rec, exact = _offset_test(test, tainted)
+        rec, exact = _offset_test(test, tainted, loop, None)
     if not rec:
         raise AnalysisError(f"send loop condition `{norm(test)}` is not a recognised remaining-bytes test")
     return exact
 
 
-def _offset_test(test, tainted):
-    """`offset < len(data)` / `offset != len(data)` / `len(data) > offset` with offset tainted by the count."""
+def _offset_test(test, tainted, loop=None, at=None):
+    """`offset < len(data)` / `offset != len(data)` / `len(data) > offset` with offset tainted by the count.
+
+    Two readings of the same spelling: `offset` accumulates the counts and `data` stays whole (exact), or `offset` is the
+    count of this pass and `data` is the trimmed rest - then the test is exact only where it is evaluated BEFORE the
+    trim of the same pass (count < len(what was offered)); after the trim it compares the count with what is left."""
     if isinstance(test, ast.Compare) and len(test.ops) == 1:
         left, op, right = test.left, test.ops[0], test.comparators[0]
+        if loop is not None:
+            off = left if isinstance(left, ast.Name) else right if isinstance(right, ast.Name) else None
+            lens = right if off is left else left
+            if off is not None and isinstance(lens, ast.Call) and dotted(lens.func) == "len" and len(lens.args) == 1 and off.id in tainted:
+                buf = norm(lens.args[0])
+                stmts = list(rules.func_stmts(loop))
+                accumulates = any((isinstance(st, ast.AugAssign) and isinstance(st.op, ast.Add) and norm(st.target) == off.id) or
+                                  (isinstance(st, ast.Assign) and any(norm(t) == off.id for t in st.targets) and isinstance(st.value, ast.BinOp) and isinstance(st.value.op, ast.Add)
+                                   and off.id in (norm(st.value.left), norm(st.value.right))) for st in stmts)
+                trims = [st for st in stmts if isinstance(st, (ast.Assign, ast.AugAssign)) and any(norm(t) == buf for t in rules.assigned_targets(st))]
+                if accumulates and trims:
+                    return True, False  # a growing offset against a shrinking rest
+                if not accumulates and trims:
+                    if at is None:
+                        return True, False  # the loop condition is evaluated after the trim of the pass
+                    before = all(_same_list_before(loop, at, t) for t in trims)
+                    return True, before and isinstance(op, (ast.Lt, ast.NotEq) if off is left else (ast.Gt, ast.NotEq))
+                if not accumulates and not trims:
+                    raise AnalysisError(f"send loop test `{norm(test)}`: `{off.id}` neither accumulates nor is `{buf}` trimmed - unknown idiom")
 
         def is_len(e):
             return isinstance(e, ast.Call) and dotted(e.func) == "len" and len(e.args) == 1
@@ -239,6 +263,16 @@ def _offset_test(test, tainted):
         if is_len(left) and is_off(right):
             return True, isinstance(op, (ast.Gt, ast.NotEq))
     return False, False
+
+
+def _same_list_before(loop, first, second) -> bool:
+    """Both statements sit in one statement list of the loop and `first` comes before `second`."""
+    for node in ast.walk(loop):
+        for field in ("body", "orelse", "finalbody"):
+            lst = getattr(node, field, None)
+            if isinstance(lst, list) and first in lst and second in lst:
+                return lst.index(first) < lst.index(second)
+    return False
 
 
 def _check_error_handler(ctx, func, cfg, handler, tainted, key):
@@ -628,8 +662,27 @@ def check_single_writer(ctx):
            f"{extra or names} write(s) to the connection directly: frames written from another thread interleave with the partial writes of a message in progress", key="single-writer", where=repo.cls("HsmsProtocol").where)
 
 
+def check_writer_stopped(ctx):
+    """C10.W3: the thread that drains the send queue is stopped on every path of the link-loss handler.  A writer that
+    survives a disable() keeps running beside the one the next connection starts: two threads then drain the queue and
+    interleave their partial writes on the non-blocking socket (rule shared with C09.P1)."""
+    from . import c09
+
+    sub = type(ctx)(ctx.prop, ctx.tier, ctx.seed, ctx.repo)
+    c09.check_on_disconnected(sub)
+    kept = [o for o in sub.obligations if o["key"] == "thread stop"]
+    ctx.require(len(kept) >= 2, "C10.W3: the link-loss handlers of HSMS and SECS-I were not found")
+    for o in kept:
+        o = dict(o)
+        o["rule"] = "C10.W3"
+        ctx.obligations.append(o)
+    for kind in ("files", "functions"):
+        ctx.analysed[kind] |= sub.analysed[kind]
+
+
 def run(ctx):
     check_single_writer(ctx)
+    check_writer_stopped(ctx)
     check_all_send_data(ctx)
     check_helper(ctx)
     from .. import refmodels
